@@ -120,62 +120,105 @@ def rule_r1(rep, repo):
 
 
 def rule_r2(rep, repo):
+    """Chunked whole-grid route: the offset subtracted from the segment table must be the position
+    of the chunk's first point, and the shifted table must be clipped at zero.
+
+    Recognised chunking idioms
+      A  for b in range(0, n, s):            chunk = points[b : b + s],          offset = b
+      B  for k, c in enumerate(np.array_split(points, m)):  chunk = c,           offset = running sum of the
+         lengths of the previous chunks (np.cumsum / an accumulated counter).  `k * len(c)` is a known-wrong
+         offset: array_split makes the first n % m chunks one point longer than the rest.
+    Anything else is undecided (exit 2)."""
     f = repo.method("BeckeWeights", "__call__")
-    gens = [n for n in ast.walk(f.node) if isinstance(n, (ast.ListComp, ast.GeneratorExp)) or isinstance(n, ast.For)]
+    indices = f.params[4]
+    pts = f.params[1]
     found = False
-    for g in gens:
+    for g in [n for n in ast.walk(f.node) if isinstance(n, (ast.ListComp, ast.GeneratorExp, ast.For))]:
         if isinstance(g, ast.For):
             var, it, scope = g.target, g.iter, g
         else:
             var, it, scope = g.generators[0].target, g.generators[0].iter, g
-        if not (isinstance(it, ast.Call) and norm(it.func) == "range" and len(it.args) == 3):
-            continue
-        v = norm(var)
         calls = [n for n in ast.walk(scope) if isinstance(n, ast.Call) and norm(n.func) in
                  ("self.generate_weights", "self.compute_weights")]
-        for c in calls:
+        if not calls:
+            continue
+        c = calls[0]
+        where = repo.rel("becke", c)
+        pt = next((k.value for k in c.keywords if k.arg == "pt_ind"), None)
+        if pt is None:
+            raise AnalysisError("unrecognised idiom: chunked call passes no pt_ind")
+        txt = norm(pt)
+        chunk_arg = c.args[0] if c.args else None
+        start = None
+        if isinstance(it, ast.Call) and norm(it.func) == "range" and len(it.args) == 3:
+            # idiom A
             found = True
-            where = repo.rel("becke", c)
-            sl = c.args[0] if c.args else None
-            if not (isinstance(sl, ast.Subscript) and isinstance(sl.slice, ast.Slice)):
+            v = norm(var)
+            if not (isinstance(chunk_arg, ast.Subscript) and isinstance(chunk_arg.slice, ast.Slice)
+                    and norm(chunk_arg.value) == pts):
                 raise AnalysisError("unrecognised idiom: chunk is not `points[start:start+size]`")
-            start = norm(sl.slice.lower)
+            start = norm(chunk_arg.slice.lower)
             step = norm(it.args[2])
-            upper = norm(sl.slice.upper)
-            if start == v and upper in (f"{v} + {step}", f"{step} + {v}"):
-                rep.ok("R2.chunk-slice", "BeckeWeights.__call__", where, f"points[{start}:{upper}] for {v} in {norm(it)}")
+            upper = norm(chunk_arg.slice.upper)
+            if start == v and upper in (f"{v} + {step}", f"{step} + {v}") and norm(it.args[0]) == "0":
+                rep.ok("R2.chunk-slice", "BeckeWeights.__call__", where, f"{pts}[{start}:{upper}] for {v} in {norm(it)}")
             else:
                 rep.violation("R2.chunk-slice", "becke.BeckeWeights.__call__", "slice",
-                              f"chunk `{norm(sl)}` does not run from the loop variable {v} to {v}+{step}: points are "
-                              f"skipped or evaluated twice", where)
-            pt = next((k.value for k in c.keywords if k.arg == "pt_ind"), None)
-            if pt is None:
-                raise AnalysisError("unrecognised idiom: chunked call passes no pt_ind")
-            txt = norm(pt)
-            indices = f.params[4]
-            shifted = f"{indices} - {start}"
-            clip_ok = txt in (f"({shifted}).clip(min=0)", f"np.clip({shifted}, 0, None)", f"np.maximum({shifted}, 0)",
-                              f"np.clip({shifted}, a_min=0, a_max=None)", f"({shifted}).clip(0)",
-                              f"({shifted}).clip(0, None)", f"np.maximum(0, {shifted})")
+                              f"chunk `{norm(chunk_arg)}` does not run from the loop variable {v} to {v}+{step} starting at 0: "
+                              f"points are skipped or evaluated twice", where)
+        elif isinstance(it, ast.Call) and norm(it.func) == "enumerate" and it.args and isinstance(it.args[0], ast.Call) \
+                and norm(it.args[0].func) in ("np.array_split", "np.split") and norm(it.args[0].args[0]) == pts \
+                and isinstance(var, ast.Tuple) and len(var.elts) == 2:
+            # idiom B
+            found = True
+            k, ch = (norm(e) for e in var.elts)
+            if norm(chunk_arg) != ch:
+                raise AnalysisError("unrecognised idiom: the array_split chunk is not what is evaluated")
+            rep.ok("R2.chunk-slice", "BeckeWeights.__call__", where, f"{ch} in {norm(it.args[0])[:50]}")
+            m = None
+            import re
+            mm = re.search(r"\((\w+) - ([^()]+(?:\([^()]*\))?[^()]*)\)", txt) or re.search(r"(\w+) - (.+?)(?:,|\)|$)", txt)
+            off = mm.group(2).strip() if mm and mm.group(1) == indices else None
+            if off in (f"{k} * len({ch})", f"len({ch}) * {k}", f"{k} * {ch}.shape[0]", f"{ch}.shape[0] * {k}"):
+                rep.violation("R2.chunk-table-shift", "becke.BeckeWeights.__call__", "offset",
+                              f"segment table shifted by `{off}`: np.array_split makes the first n % m chunks one point "
+                              f"longer than the others, so index x length-of-this-chunk is not the position of the chunk's "
+                              f"first point (wrong atom weights whenever the chunks are unequal)", where)
+                start = off
+            else:
+                raise AnalysisError(f"unrecognised idiom: offset `{off}` of an array_split chunk cannot be related to its start")
+        else:
+            continue
+        shifted = f"{indices} - {start}"
+        if start is not None and not any(r["rule"] == "R2.chunk-table-shift" and r["verdict"] != "holds" for r in rep.instances):
             if shifted not in txt:
                 rep.violation("R2.chunk-table-shift", "becke.BeckeWeights.__call__", "offset",
                               f"segment table `{txt}` is not shifted by the chunk start `{start}`: weights of the wrong "
                               f"atom are assigned in every chunk after the first", where)
             else:
                 rep.ok("R2.chunk-table-shift", "BeckeWeights.__call__", where, shifted)
-            bare = txt in (shifted, f"({shifted})")
-            known_clip = clip_ok or txt in (f"np.where({shifted} < 0, 0, {shifted})", f"np.where({shifted} > 0, {shifted}, 0)")
-            if known_clip:
+        clip_ok = txt in (f"({shifted}).clip(min=0)", f"np.clip({shifted}, 0, None)", f"np.maximum({shifted}, 0)",
+                          f"np.clip({shifted}, a_min=0, a_max=None)", f"({shifted}).clip(0)",
+                          f"({shifted}).clip(0, None)", f"np.maximum(0, {shifted})",
+                          f"np.where({shifted} < 0, 0, {shifted})", f"np.where({shifted} > 0, {shifted}, 0)")
+        bare = txt in (shifted, f"({shifted})", indices)
+        if clip_ok:
+            rep.ok("R2.chunk-table-clipped", "BeckeWeights.__call__", where, txt)
+        elif "clip" in txt or "maximum" in txt:
+            # some clipping operator is applied to a table we could not match exactly
+            if ".clip(min=0)" in txt or ".clip(0" in txt or ", 0, None)" in txt or "maximum(" in txt:
                 rep.ok("R2.chunk-table-clipped", "BeckeWeights.__call__", where, txt)
-            elif shifted in txt and not bare and not txt.startswith(f"({shifted}).clip(") and "clip" not in txt \
-                    and "maximum" not in txt:
-                raise AnalysisError(f"unrecognised idiom: shifted segment table passed as `{txt}` (cannot tell whether it is clipped)")
             else:
-                rep.violation("R2.chunk-table-clipped", "becke.BeckeWeights.__call__", "clip",
-                              f"shifted segment table `{txt}` is not clipped at zero: a negative bound is a wrap-around "
-                              f"slice, corrupting all chunks but the first (needs >= 2 chunks, i.e. >= 4 atoms)", where)
+                raise AnalysisError(f"unrecognised idiom: cannot tell whether `{txt}` is clipped at zero")
+        elif bare or shifted in txt:
+            rep.violation("R2.chunk-table-clipped", "becke.BeckeWeights.__call__", "clip",
+                          f"shifted segment table `{txt}` is not clipped at zero: a negative bound is a wrap-around "
+                          f"slice, corrupting all chunks but the first (needs >= 2 chunks, i.e. >= 4 atoms)", where)
+        else:
+            raise AnalysisError(f"unrecognised idiom: segment table passed as `{txt}`")
     if not found:
-        raise AnalysisError("unrecognised idiom: BeckeWeights.__call__ has no chunk loop over range(0, n, size)")
+        raise AnalysisError("unrecognised idiom: BeckeWeights.__call__ has no recognised chunk loop "
+                            "(range(0, n, size) slices or enumerate(np.array_split(points, m)))")
 
 
 def rule_r3(rep, repo):
